@@ -57,7 +57,7 @@ fn place(loc: usize, service: f64, windows: &[(f64, f64)]) -> PlaceT {
     PlaceT { loc, service, windows: windows.to_vec() }
 }
 
-/// Task templates. Jobs: 0..=9 and 12 singles, job 10 = multi (mp, md), job 11 = multi (np, nd).
+/// Task templates. Jobs: 0..=9, 12, 14, 15 singles, job 10 = multi (mp, md), job 11 = multi (np, nd), job 13 = multi (qp1, qp2, qd).
 pub fn tasks() -> Vec<TaskT> {
     use DemandKind::*;
     let t = |id, demand, places: Vec<PlaceT>, job, value| TaskT { id, demand, places, job, value };
@@ -78,6 +78,14 @@ pub fn tasks() -> Vec<TaskT> {
         t("nd", DynDelivery(1), vec![place(1, 5., &[(20., 30.)])], 11, 0.),
         // first window lies completely behind the end of every closed shift, the second one is usable
         t("s3", None, vec![place(1, 0., &[(2000., 3000.), (0., 50.)])], 12, 0.),
+        // a job with three tasks: two pickups with long service push the delivery towards its deadline
+        t("qp1", DynPickup(1), vec![place(1, 20., &[(0., MAXT)])], 13, 0.),
+        t("qp2", DynPickup(1), vec![place(2, 20., &[(0., MAXT)])], 13, 0.),
+        t("qd", DynDelivery(2), vec![place(3, 0., &[(0., 60.)])], 13, 0.),
+        // windows which touch the shift in one instant: at the depot with window end == shift start, and a zero-duration task
+        // at the end depot whose window starts when the tight shift ends
+        t("b0", None, vec![place(0, 0., &[(0., 0.)])], 14, 0.),
+        t("b36", None, vec![place(0, 0., &[(36., 50.)])], 15, 0.),
     ]
 }
 
